@@ -2,6 +2,7 @@
 //!   stunharness gen  <family> <seed> <count> <tier> [part parts]    case lines (no observation)
 //!   stunharness exec                                    stdin case lines -> `line => observation`
 //!   stunharness run  <family> <seed> <count> <tier>     gen | exec
+mod fam_agent;
 mod fam_attr;
 mod fam_bld;
 mod fam_msg;
@@ -23,6 +24,7 @@ fn exec_line(lhs: &str) -> String {
             "mtype" => fam_mtype::exec(&kv),
             "attr" => fam_attr::exec(&kv),
             "bld" => fam_bld::exec(&kv),
+            "ag" => fam_agent::exec(&kv),
             "msg" => fam_msg::exec(&kv),
             "xor" => fam_xor::exec(&kv),
             _ => format!("unknown-family {fam}"),
@@ -42,6 +44,7 @@ fn gen(fam: &str, seed: u64, count: usize, thorough: bool, part: u64, parts: u64
         "mtype" => fam_mtype::gen(&mut rng, count, thorough, &mut out, part, parts),
         "xor" => fam_xor::gen(&mut rng, count, thorough, &mut out, part, parts),
         f if f.starts_with("attr.") => fam_attr::gen(f, &mut rng, count, thorough, &mut out, part, parts),
+        f if f.starts_with("ag.") => fam_agent::gen(f, &mut rng, count, thorough, &mut out, part, parts),
         f if f.starts_with("bld.") => fam_bld::gen(f, &mut rng, count, thorough, &mut out, part, parts),
         f if f.starts_with("msg.") => fam_msg::gen(f, &mut rng, count, thorough, &mut out, part, parts),
         _ => panic!("unknown family {fam}"),
